@@ -94,6 +94,16 @@ def run(chk):
             if i != w + " " + w:
                 chk.violate({"kind": "property", "case": lib.show_case(c), "impl": i, "expected": w + " " + w,
                              "explanation": "matching of real architecture names differs from the property's rule (or is not symmetric)"})
+    # 2b. the same names after the caller edited the values earlier parses returned (they are the caller's): a name keeps
+    # its meaning, so matching through freshly parsed names is unaffected by that history
+    ac = [("aalias", [x, y]) for x in REAL for y in REAL[:3]]
+    aa = chk.run_impl(ac)
+    af = chk.run_impl([("aparse", [c[1][0]]) for c in ac])
+    chk.record("names-after-caller-edits", ac, aa, lambda c, r: True)
+    for c, a, f in zip(ac, aa, af):
+        if not f.startswith("err") and a != " | ".join([f] * 4):
+            chk.violate({"kind": "property", "case": lib.show_case(c), "impl": a, "fresh_parse": f,
+                         "explanation": "after the caller edited the architecture values an earlier parse returned, the same name denotes another architecture: matching by name no longer follows the rule"})
     # 3. architecture lists
     reps = [ALL, (b"any", b"any", b"any"), (b"musl", b"hurd", b"x86"), (b"any", b"hurd", b"any"), (b"any", b"any", b"x86"), (b"x86", b"x86", b"x86")]
     cases, want = [], []
